@@ -597,6 +597,12 @@ func (ex *Exec) enterLoop(st *State, h *ssa.BasicBlock, pred *ssa.BasicBlock) bo
 		if isCountedPhi(phi, h) {
 			// starts at 0 and only ever grows by one (mathematical integers: A-int)
 			st.assume(Ge(v.T, IntLit(0, SInt)))
+			// `for i := range n` is lowered to a do-while: the head is entered only under `0 < n` or `i+1 < n`
+			if lim := rangeIntLimit(phi, h); lim != nil {
+				if lv, ok := ex.tryVal(st, lim); ok && lv.K == VScalar {
+					st.assume(Lt(v.T, toInt(lv.T, lim.Type())))
+				}
+			}
 		}
 	}
 	return true
@@ -665,6 +671,49 @@ func (ex *Exec) ownerInScope(st *State, g *guardDecl) *Val {
 		}
 	}
 	return nil
+}
+
+// rangeIntLimit returns n when every edge into the loop head h is the true branch of `x < n` with x the
+// value the phi takes on that edge (the shape go/ssa gives `for i := range n`), and n is defined outside the loop.
+func rangeIntLimit(phi *ssa.Phi, h *ssa.BasicBlock) ssa.Value {
+	var lim ssa.Value
+	for i, p := range h.Preds {
+		if len(p.Instrs) == 0 {
+			return nil
+		}
+		iff, ok := p.Instrs[len(p.Instrs)-1].(*ssa.If)
+		if !ok || len(p.Succs) != 2 || p.Succs[0] != h {
+			return nil
+		}
+		cmp, ok := iff.Cond.(*ssa.BinOp)
+		if !ok || cmp.Op != token.LSS {
+			return nil
+		}
+		e := phi.Edges[i]
+		if c, isConst := e.(*ssa.Const); isConst {
+			xc, ok := cmp.X.(*ssa.Const)
+			if !ok || xc.Value == nil || c.Value == nil || xc.Int64() != c.Int64() {
+				return nil
+			}
+		} else if cmp.X != e {
+			return nil
+		}
+		if lim == nil {
+			lim = cmp.Y
+		} else if lim != cmp.Y {
+			return nil
+		}
+	}
+	if lim == nil {
+		return nil
+	}
+	if in, ok := lim.(ssa.Instruction); ok && in.Block() != nil {
+		// must be computed before the loop: its block dominates the head and is not the head or a latch
+		if in.Block() == h || !in.Block().Dominates(h) {
+			return nil
+		}
+	}
+	return lim
 }
 
 // isCountedPhi: an int phi at a loop head that enters as the constant 0 and is incremented by 1 on every back edge.
